@@ -161,7 +161,9 @@ def check_standard(schema, model, include_deprecated, generic, st=None, blocking
     if st is not None:
         st.n("evaluations")
     if r[0] == "raises":
-        return [("crash:%s" % r[1], "standard introspection query (includeDeprecated=%s, generic=%s) raised %s: %s" % (include_deprecated, generic, r[1], r[2]))], None
+        m = re.search(r'Field "([^"]+)"', r[2])
+        at = ("/at=" + re.sub(r"\d+", "N", m.group(1))) if m else ""
+        return [("crash:%s%s" % (r[1], at), "standard introspection query (includeDeprecated=%s, generic=%s) raised %s: %s" % (include_deprecated, generic, r[1], r[2]))], None
     resp = r[1]
     if resp.get("errors"):
         return [("response-errors:%s" % _norm_msg(resp["errors"][0].get("message")), "errors: %r" % resp["errors"][:2])], resp
